@@ -93,6 +93,20 @@ CHECKS = {
                         "awgn power calibration and snr/sinad/thd accuracy are statistical / numeric properties and are NOT decided by this check"],
         "extra_stubs": [],
     },
+    "C10": {
+        "batches": [("C10", "asan", 1, 3000, 200000), ("C10", "asan", 2, 3000, 200000), ("C10", "asan", 4, 3000, 200000)],
+        "rule": ("one evaluation = one simulated history of 8-40 requests (thorough: 2 % of the runs have 10^4 requests over 40 lengths) over an alphabet of "
+                 "3-8 lengths mixing cache-bypass sizes, powers of two, primes <= 41, primes > 41, composites sharing prime sub-plans and even-real lengths: "
+                 "fft/rfft/ifft/irfft/fft(x,n)/xcorr/hilbert/FftFilter, construct-and-keep FftPlan/FftPlanR/IfftPlan/IfftPlanR/CztPlan in 4 slots, solve through "
+                 "a kept plan, drop it; 1-3 threads in a hand-over chain (a thread exits, its caches are destroyed, its kept plans live on in the successor). "
+                 "Three builds with DSPLIB_FFT_CACHE_SIZE 1, 2, 4. Non-trivial: >= 1 eviction; distinct by (capacity, request sequence). states = distinct "
+                 "(capacity, complex key list, real key list); transitions = distinct (state, request, state')."),
+        "assumptions": ["the cache-access events and key lists come from the DSPLIB_VERIF hook in lib/fft/fft.cpp / lib/lru-cache.h (read-only, add-only)",
+                        "the reference LRU is driven by the accesses that happened: it does not predict which sub-plans the planner asks for",
+                        "retention clause is checked for single-length requests (fft, rfft, ifft, irfft): repeated immediately they must cause no miss event",
+                        "results are compared with the same call in a fresh OS thread (tolerance 1e-9 of scale); a kept plan re-solving its first input must "
+                        "reproduce its first output bit for bit"],
+    },
 }
 
 
